@@ -16,7 +16,7 @@ const NFileTemplates = 10
 
 func ref(call string, path ...string) *Exp { return &Exp{Kind: ERefCall, Id: call, Path: path} }
 func self(id string, path ...string) *Exp  { return &Exp{Kind: ERefSelf, Id: id, Path: path} }
-func lit(i int64) *Exp                      { return &Exp{Kind: EInt, I: i} }
+func lit(i int64) *Exp                     { return &Exp{Kind: EInt, I: i} }
 
 // Template builds skeleton number kind (0..NTemplates-1).
 func Template(kind int, seed int64, cfg *Config) *Program {
@@ -56,7 +56,7 @@ func Template(kind int, seed int64, cfg *Config) *Program {
 	gen := src(&Stage{Name: "GEN", Ins: []Param{{Name: "seed", Type: TInt}}, Outs: []Param{{Name: "arr", Type: coll}, {Name: "flag", Type: TBool}, {Name: "one", Type: T}}})
 	use := src(&Stage{Name: "USE", Ins: []Param{{Name: "x", Type: T}}, Outs: []Param{{Name: "y", Type: TInt}, {Name: "z", Type: T}}})
 	use2 := src(&Stage{Name: "USE2", Ins: []Param{{Name: "x", Type: T}, {Name: "w", Type: TInt}}, Outs: []Param{{Name: "y", Type: TInt}},
-		Split: g.pct(50), ChunkIns: []Param{{Name: "ci", Type: TInt}}, ChunkOuts: []Param{{Name: "co", Type: TInt}}})
+		Split: g.pct(50) || cfg.ForceSplit, ChunkIns: []Param{{Name: "ci", Type: TInt}}, ChunkOuts: []Param{{Name: "co", Type: TInt}}})
 	nop := src(&Stage{Name: "NOP", Outs: []Param{{Name: "n", Type: TInt}}})
 	chk := src(&Stage{Name: "CHK", Ins: []Param{{Name: "v", Type: TInt}}, Outs: []Param{}})
 	p.Stages = []*Stage{gen, use, use2, nop, chk}
@@ -258,7 +258,7 @@ func Template(kind int, seed int64, cfg *Config) *Program {
 			src(&Stage{Name: "PRODUCE", Ins: []Param{{Name: "a", Type: TInt}}, Outs: []Param{{Name: "big", Type: tbig}}}),
 			src(&Stage{Name: "CONSUME", Ins: []Param{{Name: "smalls", Type: ArrayOf(tsmall)}, {Name: "grid", Type: ArrayOf(ArrayOf(tsmall))}, {Name: "bykey", Type: TMapOf(tsmall)}}, Outs: []Param{{Name: "n", Type: TInt}}}))
 		narrow := &Pipeline{Name: "INNER", Ins: []Param{{Name: "bigs", Type: ArrayOf(tbig)}, {Name: "grid", Type: ArrayOf(ArrayOf(tbig))}, {Name: "bykey", Type: TMapOf(tbig)}},
-			Outs: []Param{{Name: "n", Type: TInt}, {Name: "smalls", Type: ArrayOf(tsmall)}, {Name: "grid", Type: ArrayOf(ArrayOf(tsmall))}},
+			Outs:  []Param{{Name: "n", Type: TInt}, {Name: "smalls", Type: ArrayOf(tsmall)}, {Name: "grid", Type: ArrayOf(ArrayOf(tsmall))}},
 			Calls: []*Call{{Callee: "CONSUME", Binds: []Binding{{Id: "smalls", Exp: self("bigs")}, {Id: "grid", Exp: self("grid")}, {Id: "bykey", Exp: self("bykey")}}}},
 			Ret:   []Binding{{Id: "n", Exp: ref("CONSUME", "n")}, {Id: "smalls", Exp: self("bigs")}, {Id: "grid", Exp: self("grid")}}}
 		top := &Pipeline{Name: "TOP"}
@@ -346,10 +346,12 @@ func Template(kind int, seed int64, cfg *Config) *Program {
 		geni := src(&Stage{Name: "GENI", Ins: []Param{{Name: "seed", Type: TInt}}, Outs: []Param{{Name: "arr", Type: ArrayOf(TInt)}}})
 		p.Stages = []*Stage{geni, one, grid}
 		inner := &Pipeline{Name: "INNER", Ins: []Param{{Name: "xs", Type: ArrayOf(TInt)}, {Name: "y", Type: TInt}},
-			Outs: []Param{{Name: "xo", Type: ArrayOf(TInt)}},
+			Outs:  []Param{{Name: "xo", Type: ArrayOf(TInt)}},
 			Calls: []*Call{{Callee: "ONE", Map: true, Binds: []Binding{{Id: "x", Exp: self("xs"), Split: true}, {Id: "y", Exp: self("y")}}}},
 			Ret:   []Binding{{Id: "xo", Exp: ref("ONE", "xo")}}}
-		lit2 := func() *Exp { return &Exp{Kind: EArray, Elems: []*Exp{lit(int64(g.r.Intn(100))), lit(int64(100 + g.r.Intn(100)))}} }
+		lit2 := func() *Exp {
+			return &Exp{Kind: EArray, Elems: []*Exp{lit(int64(g.r.Intn(100))), lit(int64(100 + g.r.Intn(100)))}}
+		}
 		top := &Pipeline{Name: "TOP", Outs: []Param{{Name: "sd", Type: ArrayOf(ArrayOf(TInt))}, {Name: "ds", Type: ArrayOf(ArrayOf(TInt))}},
 			Calls: []*Call{
 				{Callee: "GENI", Binds: []Binding{{Id: "seed", Exp: lit(s1)}}},
